@@ -1,6 +1,6 @@
 (* C12: session table model (coq/Sessions/Sessions.v).
    se <timeout_s> <max_idle> <tok>*
-     x:<key>:<now>  +:<sid>:<h>  -:<sid>:<h>  q:<sid>:<0|1>  t:<sid>:<now>  s:<sid>:<state>
+     x:<key>:<now>  xv:<key>:<now>:<victim>  +:<sid>:<h>  -:<sid>:<h>  q:<sid>:<0|1>  t:<sid>:<now>  s:<sid>:<state>
      p:<now>  F (coap_free_context)  B (print the table)
    output: the events each operation appends to the log (R:<key>:<sid> N:<sid>:<key> D:<sid>
    F:<sid>), B[<sid>:<key>:<ref>:<last>:<dq>;...] at every B, "!<tok>" and stop when an
@@ -13,6 +13,7 @@ open Util
 let se_op_of_tok (s : string) : se_op option =
   match String.split_on_char ':' s with
   | ["x"; k; n] -> Some (OpRx (zi k, zi n))
+  | ["xv"; k; n; v] -> Some (OpRxV (zi k, zi n, zi v))
   | ["+"; i; h] -> Some (OpAdd (zi i, zi h))
   | ["-"; i; h] -> Some (OpRem (zi i, zi h))
   | ["q"; i; b] -> Some (OpDq (zi i, b = "1"))
@@ -49,7 +50,7 @@ let se_cmd toks =
           else match se_op_of_tok tok with
             | None -> add ("!syntax:" ^ tok); stop := true
             | Some op ->
-                if se_op_ok !st op then begin
+                if se_op_ok cfg !st op then begin
                   st := se_step cfg !st op;
                   let fresh = drop !printed (!st).st_log in
                   List.iter (fun e -> add (se_show_ev e)) fresh;
